@@ -23,6 +23,7 @@ import (
 	"os/exec"
 	"runtime"
 	"sync"
+	"sync/atomic"
 	"syscall"
 	"time"
 
@@ -166,7 +167,7 @@ func (w *worker) kill() {
 	w.cmd.Wait()
 }
 
-const watchdog = 40 * time.Second
+const watchdog = 30 * time.Second
 
 // call sends one request; the first part of the answer is a status word:
 // whatever the child says, or "timeout" / "crash" (out of memory, fatal error).
@@ -229,6 +230,7 @@ func runAll(nWorkers int, reqs [][][]byte) [][][]byte {
 	}
 	var wg sync.WaitGroup
 	var mu sync.Mutex
+	var bad int32
 	next := 0
 	for k := 0; k < nWorkers; k++ {
 		wg.Add(1)
@@ -244,6 +246,14 @@ func runAll(nWorkers int, reqs [][][]byte) [][][]byte {
 					break
 				}
 				b := batches[i]
+				if atomic.LoadInt32(&bad) >= 3 {
+					// circuit breaker: the implementation hangs or crashes; three witnesses are
+					// enough, do not spend a watchdog period on each of thousands of cases
+					for j := b.lo; j < b.hi; j++ {
+						out[j] = [][]byte{[]byte("skipped")}
+					}
+					continue
+				}
 				parts := [][]byte{[]byte("B")}
 				for j := b.lo; j < b.hi; j++ {
 					parts = append(parts, encodeParts(reqs[j]))
@@ -262,7 +272,14 @@ func runAll(nWorkers int, reqs [][][]byte) [][][]byte {
 				}
 				if !ok {
 					for j := b.lo; j < b.hi; j++ {
+						if atomic.LoadInt32(&bad) >= 3 {
+							out[j] = [][]byte{[]byte("skipped")}
+							continue
+						}
 						out[j] = call(&w, reqs[j]...)
+						if st := string(out[j][0]); st == "timeout" || st == "crash" {
+							atomic.AddInt32(&bad, 1)
+						}
 					}
 				}
 			}
